@@ -301,9 +301,12 @@ class Application(object):
                 norm_path = normalize_path(url_path, route.is_branch)
                 if norm_path != url_path:
                     if route.slash_mode == S_REDIRECT:
+                        # quote the raw query bytes (keeping delimiters and existing
+                        # escapes) so undecodable bytes cannot raise here
                         parts = [request.url_root.rstrip('/'),
                                  url_quote(norm_path, safe='/'),
-                                 '?', request.query_string.decode('utf8')]
+                                 '?', url_quote(request.query_string,
+                                                safe=":/?#[]@!$&'()*+,;=%")]
                         return redirect(''.join(parts))  # TODO: error_handler
                     elif route.slash_mode == S_STRICT:
                         nf_exc = err_handler.not_found_type(request=request,
